@@ -236,6 +236,17 @@ func genCase(t *rapid.T) Case {
 			m.In[i].PrevScript = append(s, 0xab, 0x51, 0xab)
 		}
 	}
+	// script codes (and an output script) that are a standard template or one step away from one
+	if rapid.IntRange(0, 3).Draw(t, "template_like") == 0 {
+		for i := range m.In {
+			if !m.In[i].PrevNil && rapid.IntRange(0, 2).Draw(t, "tpl_in") != 0 {
+				m.In[i].PrevScript = gen.TemplateLike(t, "tpl")
+			}
+		}
+		if len(m.Out) > 0 && rapid.Bool().Draw(t, "tpl_out") {
+			m.Out[rapid.IntRange(0, len(m.Out)-1).Draw(t, "tpl_out_at")].Script = gen.TemplateLike(t, "tplo")
+		}
+	}
 	if len(m.In) <= 8 && rapid.IntRange(0, 39).Draw(t, "huge") == 0 {
 		gen.HugeField(t, &m)
 	}
